@@ -25,7 +25,8 @@ RULE = (
     'run could produce, since each file is read once at some instant of the phase). Other actors, each with its own handle '
     'and pre-emptible at every file-system call / SQL statement: 1-2 loose writers and one maintenance client running a '
     'generated sequence out of pack_all_loose(mode, clean_loose_per_pack), clean_storage(), add_objects_to_pack(compress). '
-    'Optionally a previous backup exists (incremental, --link-dest). Schedule = Hypothesis list of (actor, run length). '
+    'Optionally a previous backup exists (incremental, --link-dest) and optionally one more client just keeps a handle open '
+    'for the whole scenario (its connection keeps SQLite from checkpointing the WAL into packs.idx). Schedule = Hypothesis list of (actor, run length). '
     'Oracle, only when the backup returns successfully (failures are counted as inconclusive): the backup folder opened with '
     'a fresh Container holds every object that existed when the backup started with exactly its bytes; every key of '
     'list_all_objects() reads back as the content with that digest; validate() clean; raw reader consistent. Non-trivial = a '
@@ -52,6 +53,8 @@ def strategy():
             'split_loose': st.integers(0, 65535),
             'split_packs': st.integers(0, 65535),
             'incremental': st.booleans(),
+            'holder': st.sampled_from([True, True, False]),
+            'early_maint': st.sampled_from([0, 0, 5, 30, 100, 10**9]),
             'schedule': st.lists(
                 st.one_of(
                     st.tuples(st.just('backup'), st.sampled_from((1, 1, 1, 2, 3))),
@@ -103,7 +106,17 @@ def run_case(case):  # pylint: disable=too-many-locals,too-many-statements,too-m
         if os.path.islink(link):
             os.remove(link)
     setup.close()
-    sched = Scheduler(case['schedule'], watchdog=180)
+    schedule = list(case['schedule'])
+    if case.get('early_maint'):
+        # the backup starts (first yield point = before the loose copy), then the maintenance client runs for a while
+        schedule = [('backup', 1), ('maint', case['early_maint'])] + schedule
+    sched = Scheduler(schedule, watchdog=180)
+    # a client that simply keeps the container open (e.g. a daemon): its connection prevents SQLite from checkpointing the WAL
+    # into packs.idx when the other clients close theirs
+    holder = None
+    if case.get('holder'):
+        holder = Container(path)
+        holder.has_objects(list(stored)[:1] or ['0' * 40])
     state = {'at_start': None, 'result': None, 'error': None}
 
     def writer(script):
@@ -188,13 +201,15 @@ def run_case(case):  # pylint: disable=too-many-locals,too-many-statements,too-m
     sched.add_actor('maint', maintenance)
     sched.add_actor('backup', backup)
     shim = Shim(path, sched, trace_reads=True)
-    labels = ['scenario', 'incremental' if case['incremental'] else 'full']
+    labels = ['scenario', 'incremental' if case['incremental'] else 'full'] + (['long-open-holder'] if case.get('holder') else [])
     try:
         shim.install()
         try:
             sched.run(shim)
         finally:
             shim.uninstall()
+            if holder is not None:
+                holder.close()
         trace = sched.trace
         for actor in sched.order:
             if actor.error is not None:
